@@ -4,9 +4,12 @@ when time1.size * time2.size > 10**6), driven from c04_collocate.py.
 Small cores are embedded in 1001 x 1000 deterministic filler points that are
 far away from the cores and from each other's side and spread over many time
 bins (one side one point per second, the other side unevenly with duplicate
-seconds) with a gap of empty bins. A spy on
+seconds) with a gap of empty bins, plus 10 points per side without a position
+(NaN latitude or longitude) before, between and after the cores, so that the
+indices of the binned search are not the indices of the datasets. A spy on
 Collocator.spatial_search_with_temporal_binning asserts that the binned path
-was really taken (otherwise harness error).
+was really taken (otherwise harness error). The Collocator of every case is
+then reused for a direct search of the two cores alone.
 """
 import itertools
 
@@ -18,10 +21,20 @@ RULE = ("large: cores = every pair of sequences of length 1..2 over 6 core "
         "10, 20 exactly on bin labels = candidate-window ends; quick: length "
         "1, plus on one side every length-2 sequence holding an on-label "
         "point) embedded in 1001 x 1000 filler points "
-        "(either side the larger one), the cores lying in the middle of / "
+        "(either side the larger one) and 10 x 10 points with NaN latitude "
+        "or longitude (seconds -650 .. 450, four of them at seconds 9 and 11 "
+        "inside the cores), the cores lying in the middle of / "
         "before / after the filler's time range (quick: middle, before), x "
         "bin_factor 1, 2, 0.5 and, in the middle placement (thorough), "
-        "identity and (0 1) shuffles, leaf_size 1 and magnitude_factor 1.")
+        "identity and (0 1) shuffles, leaf_size 1 and magnitude_factor 1; in "
+        "the middle placement with a single point on both sides, the "
+        "primary's on a bin label (thorough: a single point on at least one "
+        "side), also the primary's time in seconds, the "
+        "secondary's in milliseconds, and max_interval '2 days' (bins of two "
+        "days). "
+        "After each of these calls the same Collocator collocates the two "
+        "cores alone (direct path, default configuration; one more "
+        "evaluation).")
 
 # Seconds 10 and 20 are exact bin labels (EPOCH is 10 s before midnight, bins
 # are aligned to midnight): a point exactly on a label is also exactly on the
@@ -33,6 +46,12 @@ PLACEMENTS = ("middle", "first", "last")
 BIN_CONFIGS = (dict(bin=1), dict(bin=2), dict(bin=0.5))
 MORE_CONFIGS = (dict(shuffle="id"), dict(shuffle="t1"), dict(leaf=1),
                 dict(mf=1))
+SHORT_CORE_CONFIGS = (dict(unit1="s"), dict(unit2="ms"),
+                      dict(thr="2days-str"))
+# (second, lat, lon) of the points without a position
+NANS = tuple((sec, (model.NAN, 10.0)[k % 2], (0.0, model.NAN)[k % 2])
+             for k, sec in enumerate(
+                 (-650, -350, -50, 9, 9, 11, 11, 15, 150, 450)))
 
 
 def core_sequences(maxlen, with_label_pairs=False):
@@ -84,27 +103,50 @@ def core_points(core, id0):
 _filler_pairs = {}
 
 
-def case_points(placement, bigger, core1, core2):
+def case_points(placement, bigger, core1, core2, thr):
     """-> (points 1, points 2, expected pairs)"""
+    metres, seconds = model.THRESHOLDS[thr][2:]
     n1, n2 = (1001, 1000) if bigger == 1 else (1000, 1001)
     f1 = filler(n1, 10000, -60.0, placement, n1 // 2)
     f2 = filler(n2, 20000, 60.0, placement, n2 // 4)
-    key = (placement, bigger)
-    if key not in _filler_pairs:
-        _filler_pairs[key] = model.expected(f1, f2, 5000, 10)
+    key = (placement, bigger, metres)
+    if key not in _filler_pairs:        # 10^6 chords: once per process
+        _filler_pairs[key] = model.expected(f1, f2, metres, float("inf"))
     c1, c2 = core_points(core1, 100), core_points(core2, 200)
-    exp = dict(_filler_pairs[key])
-    exp.update(model.expected(c1, c2 + f2, 5000, 10))
-    exp.update(model.expected(f1, c2, 5000, 10))
-    return c1 + f1, c2 + f2, exp
+    exp = {k: v for k, v in _filler_pairs[key].items() if v[0] < seconds}
+    exp.update(model.expected(c1, c2 + f2, metres, seconds))
+    exp.update(model.expected(f1, c2, metres, seconds))
+    nans1 = [(30000 + k,) + p for k, p in enumerate(NANS)]
+    nans2 = [(40000 + k,) + p for k, p in enumerate(NANS)]
+    return c1 + nans1 + f1, c2 + nans2 + f2, exp
+
+
+def follow_up(collocator, core1, core2):
+    """The Collocator that just did a binned search collocates the cores
+    alone -> (non-trivial, None or finding)"""
+    from typhon.collocations import Collocator
+    ds1, pts1, _ = model.build(("X", core_points(core1, 100)), None, "obs")
+    ds2, pts2, _ = model.build(("X", core_points(core2, 200)), None, "spot")
+    exp = model.expected(pts1, pts2, *model.THRESHOLDS["num"][2:])
+    bad = model.judge(model.call(collocator, ds1, ds2, model.DEFAULT),
+                      pts1, pts2, exp)
+    if bad is not None and model.judge(
+            model.call(Collocator(), ds1, ds2, model.DEFAULT),
+            pts1, pts2, exp) is None:
+        bad = ("history/direct-search-after-binned-search-differs-from-"
+               "fresh-collocator", bad[1], bad[2], bad[0] + " " + bad[3])
+    return bool(exp), bad
 
 
 def evaluate(placement, bigger, core1, core2, changes):
-    """-> (binned path taken, non-trivial, None or finding)"""
+    """-> (binned path taken, (non-trivial, None or finding) of the binned
+    search, the same of the direct search that follows it)"""
     from typhon.collocations import Collocator
-    pts1, pts2, exp = case_points(placement, bigger, core1, core2)
-    ds1, _ = model.build(("X", pts1), None, "obs")
-    ds2, _ = model.build(("X", pts2), None, "spot")
+    cfg = dict(model.DEFAULT, **changes)
+    pts1, pts2, exp = case_points(placement, bigger, core1, core2,
+                                  cfg["thr"])
+    ds1, _, _ = model.build(("X", pts1), None, "obs", cfg["unit1"])
+    ds2, _, _ = model.build(("X", pts2), None, "spot", cfg["unit2"])
     collocator = Collocator()
     binned = collocator.spatial_search_with_temporal_binning
     taken = []
@@ -113,8 +155,10 @@ def evaluate(placement, bigger, core1, core2, changes):
         taken.append(1)
         return binned(*args, **kwargs)
     collocator.spatial_search_with_temporal_binning = spy
-    obs = model.call(collocator, ds1, ds2, dict(model.DEFAULT, **changes))
-    return bool(taken), bool(exp), model.judge(obs, pts1, pts2, exp)
+    obs = model.call(collocator, ds1, ds2, cfg)
+    del collocator.spatial_search_with_temporal_binning
+    return bool(taken), (bool(exp), model.judge(obs, pts1, pts2, exp)), \
+        follow_up(collocator, core1, core2)
 
 
 def run_shard(shard):
@@ -122,36 +166,48 @@ def run_shard(shard):
     quick = tier == "quick"
     model.install_seam()
     res = driver.ShardResult()
-    configs = BIN_CONFIGS + (
-        MORE_CONFIGS if placement == "middle" and not quick else ())
     last = None
     # quick: a longer core (with an on-label point) on either side, the other
     # side a single point
     for core2 in core_sequences(1 if quick else 2,
                                 quick and placement == "middle"
                                 and len(core1) == 1):
+        configs = BIN_CONFIGS
+        singles = (len(core1), len(core2)).count(1)
+        if placement == "middle" and not quick:
+            configs += MORE_CONFIGS
+        if placement == "middle" and (
+                singles == 2 and core1 in ON_LABEL if quick else singles):
+            configs += SHORT_CORE_CONFIGS
         for changes in configs:
-            taken, nontrivial, bad = evaluate(placement, bigger, core1,
-                                              core2, changes)
+            taken, binned, direct = evaluate(placement, bigger, core1,
+                                             core2, changes)
             last = dict(part="large", placement=placement, bigger=bigger,
                         core1=core1, core2=core2, changes=changes)
-            if not taken:
+            # (a search that goes wrong before it gets there is a violation)
+            if not taken and binned[1] is None:
                 res.error("binned path not taken: %r" % (last,))
-            res.case(nontrivial=nontrivial)
-            res.count("calls_large")
-            if bad is not None:
-                if evaluate(placement, bigger, core1, core2,
-                            changes)[2] != bad:
-                    res.error("NONDETERMINISM in %r" % (last,))
-                res.violation(bad[0], last, bad[1], bad[2], bad[3])
+            again = None
+            for name, (nontrivial, bad) in (("large", binned),
+                                            ("large_follow_up", direct)):
+                res.case(nontrivial=nontrivial)
+                res.count("calls_" + name)
+                if bad is not None:
+                    again = again or evaluate(placement, bigger, core1,
+                                              core2, changes)
+                    if bad not in (again[1][1], again[2][1]):
+                        res.error("NONDETERMINISM in %r" % (last,))
+                    res.violation(bad[0], last, bad[1], bad[2], bad[3])
     res.sample(last)
     return res
 
 
 def replay(case):
     model.install_seam()
-    taken, _, bad = evaluate(case["placement"], case["bigger"],
-                             case["core1"], case["core2"], case["changes"])
+    taken, (_, bad), (_, later) = evaluate(
+        case["placement"], case["bigger"], case["core1"], case["core2"],
+        case["changes"])
+    bad = bad or later
     if bad is None:
         return dict(ok=True, binned_path_taken=taken)
     return dict(ok=False, key=bad[0], expected=bad[1], observed=bad[2],
